@@ -350,8 +350,17 @@ fn build_il(rng: &mut Rng, sp: &Scalar, div0: bool) -> (Function, Kind, bool) {
             }
         }
         let block = cfg.new_block().unwrap();
-        for op in ops {
+        // sometimes leave a gap in the instruction indices (a nop that is removed again with
+        // `Block::remove_instruction`): index != position, as after any editing pass
+        let gap = if ops.len() >= 2 && rng.chance(1, 5) { Some(rng.below(ops.len() as u64) as usize) } else { None };
+        for (i, op) in ops.into_iter().enumerate() {
+            if gap == Some(i) {
+                block.nop();
+            }
             push_op(block, op);
+        }
+        if let Some(i) = gap {
+            block.remove_instruction(i).unwrap();
         }
     }
     let entry = 0usize;
